@@ -52,6 +52,27 @@ pub fn run_slice(sc: &Value, id: usize, out: Out) {
     let mask: Vec<bool> = sc["mask"].as_array().unwrap().iter().map(|v| v.as_bool().unwrap()).collect(); // true = axis kept
     let rf = sc["ref"].as_array().unwrap();
     let pt = Array1::from_iter(mask.iter().zip(rf.iter()).map(|(m, r)| if *m { f64::NAN } else { r.as_f64().unwrap() / q }));
+    if sc.get("direct").and_then(|v| v.as_bool()).unwrap_or(false) {
+        // infeasible_elimination ; remove_axes ; infeasible_elimination on the tree itself: the slice at 0 of the masked coordinates
+        let r = guarded(|| {
+            let mut s = tree.clone();
+            s.infeasible_elimination();
+            s.remove_axes(&Array1::from_iter(mask.iter().cloned())).expect("remove_axes");
+            let mid = s.clone();
+            s.infeasible_elimination();
+            let mut s2 = s.clone();
+            s2.infeasible_elimination();
+            (mid, s, s2)
+        });
+        let base = json!({"fam": "slice", "sc": id, "first": true, "q": q as i64, "tree": tree_json(&tree, q), "mask": sc["mask"], "ref": sc["ref"], "prune": true, "direct": true});
+        let mut ev = base.clone();
+        match r {
+            Ok((mid, s, s2)) => { ev["res"] = json!("ok"); ev["mid"] = tree_json(&mid, q); ev["post"] = tree_json(&s, q); ev["post2"] = tree_json(&s2, q); ev["grid"] = eval_grid(&s, q, 2, 4); }
+            Err(_) => { ev["res"] = json!("panic"); ev["mid"] = none(); ev["post"] = none(); ev["post2"] = none(); ev["grid"] = none(); }
+        }
+        out(ev);
+        return;
+    }
     let r = guarded(|| {
         let mut s = AffTree::<2>::from_slice(&pt);
         s.compose::<false, false>(&tree);
